@@ -407,7 +407,9 @@ class SymMixin:
                 return Sym(term, "timedelta")
             if (da and tb) or (ta and db and op == "add"):
                 self.may_raise(run, "OverflowError", self.site(node), "datetime arithmetic")
-                return Sym(term, "datetime")
+                base = a if da else b  # datetime +- timedelta keeps the datetime's tzinfo
+                tzinfo = base.tzinfo if isinstance(base, _dt.datetime) else (base.info.get("tz", MISSING) if isinstance(base, Sym) else MISSING)
+                return Sym(term, "datetime", **({"tz": tzinfo} if tzinfo is not MISSING else {}))
             if ta and tb:
                 return Sym(term, "timedelta")
         if op == "mul" and ("timedelta" in kinds or isinstance(a, _dt.timedelta) or isinstance(b, _dt.timedelta)):
@@ -832,6 +834,24 @@ class SymMixin:
                             run.emit("loop-carried", nm_, self.site(node))
         env.vars.clear()
         env.vars.update(snapshot)
+        # after the loop a rebound local holds what it held before, or what some iteration left in it: not the pre-loop value
+        for nm_, vals in carried.items():
+            alts_ = [snapshot.get(nm_)] + list(vals)
+            kinds_ = {(self.kind_of(v_, run) if isinstance(v_, Sym) else "int" if isinstance(v_, int) and not isinstance(v_, bool) else
+                       "bool" if isinstance(v_, bool) else "none" if v_ is None else "str" if isinstance(v_, str) else
+                       "bytes" if isinstance(v_, bytes) else "obj") for v_ in alts_}
+            kind_ = next(iter(kinds_)) if len(kinds_) == 1 and "obj" not in kinds_ and "none" not in kinds_ else "any"
+            info_ = {}
+            if kind_ == "int":
+                los_ = [(v_.info.get("lo") if isinstance(v_, Sym) else v_) for v_ in alts_]
+                his_ = [(v_.info.get("hi") if isinstance(v_, Sym) else v_) for v_ in alts_]
+                if all(x_ is not None for x_ in los_):
+                    info_["lo"] = min(los_)
+                if all(x_ is not None for x_ in his_):
+                    info_["hi"] = max(his_)
+            if "none" in kinds_:
+                info_["maybe_none"] = True
+            env.vars[nm_] = Sym(("loop-exit", nm_, self.site(node)), kind_, alts=alts_, **info_)
         return results
 
     def sym_for(self, s: ast.For, it, env, run):
